@@ -256,7 +256,8 @@ def isotope_violations(ctx, key, envd, only_pos=None, count=True):
                     ctx.case((row["row"], envkey(envd)), nontrivial=True, cls=["branch:" + br, "outcome:exception"])
                 yield Violation("c14:%s:exception:%s%s" % (br, type(e).__name__, why),
                                 "%s -> %s (%s): activity() raised %s: %s [exact value %s]"
-                                % (row["isotope"], row["daughter"], row["reaction"], type(e).__name__, str(e)[:120],
+                                % (row["isotope"], row["daughter"], row["reaction"], type(e).__name__,
+                                   str(e0 if type(e0) is type(e) else e)[:120],
                                    "omitted" if ref is None else "%.6g" % fl(ref[0])),
                                 row_case(row, envd))
         if not blamed and only_pos is None:
@@ -471,7 +472,13 @@ def sample_atoms(E):
                      other, st.sampled_from([["D", 0, 0], ["T", 0, 0], ["D", 0, 1], ["H", 2, 0], ["H", 1, 0]]))
     count = st.one_of(st.just("1"), st.integers(1, 20).map(str),
                       st.tuples(st.integers(0, 30), st.integers(1, 999)).map(lambda t: "%d.%03d" % t))
-    return st.lists(st.tuples(atom, count).map(list), min_size=1, max_size=4)
+    free = st.lists(st.tuples(atom, count).map(list), min_size=1, max_size=4)
+    # the same nuclide reached twice: a natural element together with one of its
+    # isotopes (and its ion), so that contributions have to be added up
+    related = st.tuples(st.sampled_from(P["iso"]), count, count, count, st.booleans()).map(
+        lambda t: [[[t[0][0], 0, 0], t[1]], [t[0], t[2]]] +
+        ([[[t[0][0], t[0][1], E.table.symbol(t[0][0]).ions[0]], t[3]]] if t[4] and E.table.symbol(t[0][0]).ions else []))
+    return st.one_of(free, free, free, related)
 
 
 def resolve(E, spec):
@@ -531,6 +538,8 @@ def check_sample(ctx, value):
             for ia in el.isotopes:
                 ab = mine.get(z, {}).get(ia, 0.0)
                 have = abundance(el[ia])
+                if (z, ia) not in E.byiso:
+                    continue        # no reaction rows: the abundance cannot influence the result
                 if abs(have - ab) > 1e-9 * max(abs(ab), abs(have)):
                     raise Violation("c14:natural:abundance-value:%s" % which,
                                     "%s[%d]: the %s abundance function returns %r %%, the table text says %r %%"
@@ -640,9 +649,9 @@ def tasks(tier):
     out = []
     for rep in range(3):
         for k in range(4):
-            out.append(("rows-%d-%s" % (k, "abc"[rep]), task_rows, dict(n=1500, part=k, parts=4)))
-    out.append(("samples-a", task_samples, dict(n=12000)))
-    out.append(("samples-b", task_samples, dict(n=12000)))
+            out.append(("rows-%d-%s" % (k, "abc"[rep]), task_rows, dict(n=1200, part=k, parts=4)))
+    out.append(("samples-a", task_samples, dict(n=10000)))
+    out.append(("samples-b", task_samples, dict(n=10000)))
     out.append(("elements", task_elements, {}))
     out.append(("table", task_table, {}))
     return out
